@@ -10,6 +10,7 @@ require (
 require (
 	github.com/google/uuid v1.6.0 // indirect
 	github.com/pborman/uuid v1.2.1 // indirect
+	golang.org/x/sync v0.14.0 // indirect
 )
 
 replace github.com/google/badwolf => /repo
